@@ -500,7 +500,10 @@ static void drawConstraints(Rng& r, Cfg& g)
   if (p < 0.45) return;
   int nt = (int)g.types.size();
   double hmax = g.npas * g.dpas;
-  bool anisoOk = g.authAniso && g.ndim == 2 && g.ndir >= 2 && g.src != SRC_VMAP;
+  // lock_iso2d: in a 2-D space the library keeps the second range but withdraws the rotation ("if (optvar.getLockIso2d())
+  // optvar.setAuthRotation(0)"); what the flag means in 2-D is not documented, so no second-range / angle constraint is
+  // drawn together with it.
+  bool anisoOk = g.authAniso && g.ndim == 2 && g.ndir >= 2 && g.src != SRC_VMAP && !g.lockIso2d;
   bool rotOk   = anisoOk && g.authRot && g.ndir > g.ndim;
   if (g.src == SRC_VMAP) { anisoOk = (g.ndim == 2); rotOk = anisoOk; } // vmap fit always authorises both
   if (p < 0.57)
